@@ -483,5 +483,20 @@ pub fn random_settings(rng: &mut StdRng, sym: bool) -> serde_json::Value {
     if !sym && rng.gen::<f64>() < 0.2 {
         s.insert("max_step_fraction".into(), json!([0.5, 0.9, 0.999][rng.gen_range(0..3)]));
     }
+    if rng.gen::<f64>() < 0.25 {
+        s.insert("equilibrate_max_iter".into(), json!([0u32, 1, 3, 5, 20][rng.gen_range(0..5)]));
+    }
+    if rng.gen::<f64>() < 0.2 {
+        s.insert("iterative_refinement_max_iter".into(), json!([1u32, 3, 5][rng.gen_range(0..3)]));
+    }
+    if rng.gen::<f64>() < 0.15 {
+        let k = [1e-2, 1e-3, 1.0][rng.gen_range(0..3)];
+        s.insert("equilibrate_min_scaling".into(), json!(k));
+        s.insert("equilibrate_max_scaling".into(), json!(1.0 / k));
+    }
+    if rng.gen::<f64>() < 0.1 {
+        s.insert("static_regularization_constant".into(), json!([1e-7, 1e-9][rng.gen_range(0..2)]));
+        s.insert("dynamic_regularization_eps".into(), json!([1e-12, 1e-14][rng.gen_range(0..2)]));
+    }
     serde_json::Value::Object(s)
 }
